@@ -62,13 +62,10 @@ HARNESS(harness_strndup_oom) {
   }
   WITNESS("end");
 }
-HARNESS(harness_calloc_oom) {
-  h_init(); IN_U64(num); IN_U64(size); IN_BOOL(oom);
+static void body_calloc_oom(const uint64_t size) {
+  h_init(); IN_U64(num); IN_BOOL(oom);
   uint64_t prod; int wraps = __builtin_mul_overflow(num, size, &prod);
-#ifdef KF_C15_4
-  ASSUME(!wraps);                       /* known finding 4: num * size is not checked for overflow */
-#endif
-  ASSUME(prod <= 16);                   /* stated bound: blocks of at most 16 bytes (the wrapped product when it wraps) */
+  ASSUME(wraps || prod <= 16);                   /* stated bound: blocks of at most 16 bytes (the wrapped product when it wraps) */
   oom_now = oom;
   uint8_t out[16];
   for (int i = 0; i < 16; i++) out[i] = 0xEE;
@@ -78,6 +75,14 @@ HARNESS(harness_calloc_oom) {
   if (r) for (uint64_t i = 0; i < 16; i++) CHECK(out[i] == (i < prod ? 0 : 0xEE), "calloc: the block is zeroed");
   WITNESS("end");
 }
+/* element size is a constant per obligation (division by a symbolic divisor is out of the solver's reach) */
+HARNESS(harness_calloc_oom_0) { body_calloc_oom(0); }
+HARNESS(harness_calloc_oom_1) { body_calloc_oom(1); }
+HARNESS(harness_calloc_oom_2) { body_calloc_oom(2); }
+HARNESS(harness_calloc_oom_3) { body_calloc_oom(3); }
+HARNESS(harness_calloc_oom_8) { body_calloc_oom(8); }
+HARNESS(harness_calloc_oom_big) { body_calloc_oom(0x8000000000000000ULL); }
+HARNESS(harness_calloc_oom_max) { body_calloc_oom(0xFFFFFFFFFFFFFFFFULL); }
 
 /* ---- demonstrations of the known findings (NOT in spec.py: expected to FAIL) */
 HARNESS(finding_strdup_under_oom) {
